@@ -800,6 +800,35 @@ namespace sim
     }
 
     // ---------------------------------------------------------------- twin equality
+    void neq_oracle(const Scenario &s, const std::vector<OpRef> &all, RunResult &res)
+    {
+      std::map<std::string, std::vector<const OpRef *>> groups;
+      for (const auto &q : all)
+        if (!q.op->neq.empty() && q.resp->status == 0)
+          groups[q.op->neq].push_back(&q);
+      for (auto &g : groups)
+        for (size_t i = 1; i < g.second.size(); ++i)
+          {
+            const OpRef *a = g.second[0], *b = g.second[i];
+            res.counters["evaluations"]++;
+            bool same = a->resp->v.size() == b->resp->v.size();
+            for (size_t j = 0; same && j < a->resp->v.size(); ++j)
+              if (!bits_equal(a->resp->v[j], b->resp->v[j]))
+                same = false;
+            if (same)
+              {
+                Violation v;
+                v.cls = s.property + "/seed-ignored";
+                std::ostringstream o;
+                o << "ops " << a->index << " (h" << a->op->h << ") and " << b->index << " (h" << b->op->h << "): worlds with different effective seeds gave identical random answers " << fmt_vec(a->resp->v, 0, 6);
+                v.detail = o.str();
+                v.site = "seed";
+                v.op_index = b->index;
+                res.violations.push_back(v);
+              }
+          }
+    }
+
     void eq_oracle(const Scenario &s, const std::vector<OpRef> &all, RunResult &res)
     {
       std::map<std::string, std::vector<const OpRef *>> groups;
@@ -847,6 +876,25 @@ namespace sim
                       res.violations.push_back(v);
                     }
                   continue;
+                }
+              if (s.property == "C07" && a->op->via == "properties")
+                {
+                  // "inside according to the world without shortcuts" probes
+                  const OpRef *bug = a->op->mask ? a : b;
+                  bool valid;
+                  if (expected_len(bug->op->props, valid) == bug->resp->v.size() && valid)
+                    {
+                      size_t off = 0;
+                      for (const auto &p : bug->op->props)
+                        {
+                          if (p[0] == 4 && bug->resp->v[off] >= 0)
+                            {
+                              res.counters["inside_" + bug->op->note]++;
+                              res.counters["nontrivial"] = 1;
+                            }
+                          off += block_len(p);
+                        }
+                    }
                 }
               bool same = a->resp->v.size() == b->resp->v.size();
               size_t bad = 0;
@@ -1210,6 +1258,7 @@ namespace sim
         res.violations.push_back(v);
       }
     eq_oracle(s, all, res);
+    neq_oracle(s, all, res);
     if (s.oracle == "stateless")
       stateless_oracle(s, queries, res);
     for (int i = 0; i < 16; ++i)
